@@ -192,7 +192,9 @@ CLAIMED = {
          'thread-local counter. That the code is such a product (no mutable state shared between associations) is tested: '
          'one real AE on loopback TCP serves 4, 16 and 32 concurrent clients with their own data, limits, transfer syntaxes '
          'and operation mixes, some aborting; each client checks its own answers and the syntax the server used for it.',
-         'Partial: the quantifier over OS thread schedules is sampled (repeated rounds and seeds), not proved or enumerated.'),
+         'Partial: the quantifier over OS thread schedules is sampled (repeated rounds and seeds), not proved or enumerated; '
+         'the deterministic transport with interleaved stepping of several real providers is enumerated by seed, each provider '
+         'compared with its solo run (the statement the Lean theorem makes about the models).'),
 }
 
 PENDING_REASON = 'check not built yet in this round; planned in DESIGN.md §6 (Lean model + theorem + tie)'
